@@ -46,8 +46,26 @@ use crate::{
     },
 };
 
-/// known finding: a snapshot addressed by its full id is read from the cache without any listing
+/// known finding: a snapshot addressed by its full id is read from the cache without any listing.
+/// Predicate: a get-by-full-id through the cached handle for a snapshot whose cache entry went out
+/// of date since the cached handle last listed snapshots (forgotten through the uncached handle,
+/// or a stale / wrong-size file planted under its id).
 pub const KEY_FULL_ID: &str = "full-id-lookup-trusts-cache";
+/// suspected finding: a file named like an id but outside the shard directory of that id makes
+/// `Cache::remove_not_in_list` fail (cleanup of stale entries is abandoned) and `check` report
+/// `ErrorReadingFile`. Predicate: the history plants such a file.
+pub const KEY_MISPLACED: &str = "misplaced-id-file-breaks-cache-cleanup";
+/// suspected finding: a cached tree pack with a wrong size whose bytes are not the pack's bytes is
+/// served by `read_partial` (only `check` compares pack sizes). Predicate: the history plants a
+/// wrong-size, wrong-content file under the id of an existing pack.
+pub const KEY_GARBAGE_PACK: &str = "wrong-size-pack-entry-served";
+
+/// keys the operator asked to treat as known while debugging (same convention as C14)
+fn assumed_known(key: &str) -> bool {
+    std::env::var("VP_ASSUME_KNOWN")
+        .map(|v| v.split(',').any(|k| k.trim() == key))
+        .unwrap_or(false)
+}
 
 #[derive(Debug, Clone, Copy, PartialEq, Eq, PartialOrd, Ord, Serialize, Deserialize)]
 pub enum PType {
@@ -173,6 +191,7 @@ fn ptype() -> BoxedStrategy<PType> {
 
 fn plant() -> BoxedStrategy<Plant> {
     let foreign = prop_oneof![
+        1 => (any::<u64>(), 0u8..2).prop_map(|(seed, place)| Foreign::HexMisplaced { seed, place }),
         2 => (0u8..6).prop_map(Foreign::NonHex),
         2 => any::<u16>().prop_map(Foreign::TmpLeftover),
         3 => (0u8..3, any::<u16>()).prop_map(|(v, s)| Foreign::SubDir(v, s)),
@@ -184,8 +203,9 @@ fn plant() -> BoxedStrategy<Plant> {
             ptype(),
             any::<u16>(),
             prop_oneof![
-                any::<u8>().prop_map(SizeChange::Truncate),
-                (1u16..400).prop_map(SizeChange::Extend)
+                3 => any::<u8>().prop_map(SizeChange::Truncate),
+                3 => (1u16..400).prop_map(SizeChange::Extend),
+                2 => (0u16..3000).prop_map(SizeChange::Garbage),
             ]
         )
             .prop_map(|(tpe, sel, change)| Plant::WrongSize { tpe, sel, change }),
@@ -238,9 +258,25 @@ fn strategy(ctx: &Ctx) -> BoxedStrategy<Case> {
         .prop_flat_map(move |cfg| {
             let mut p = super::c07::params(&cfg);
             p.file_cap = 60_000;
-            (Just(cfg), tree(p), prop::collection::vec(step(p), 3..=len))
+            // half of the histories start with a churn that fills the set of removed files
+            // (snapshot, index and pack files) early: backup, forget the first snapshot, prune
+            let churn = prop_oneof![
+                1 => Just(None),
+                1 => (prop::collection::vec(edit(p), 1..3), any::<bool>(), any::<bool>(), any::<bool>()).prop_map(Some),
+            ];
+            (Just(cfg), tree(p), churn, prop::collection::vec(step(p), 3..=len))
         })
-        .prop_map(|(cfg, tree, ops)| Case { cfg, tree, ops })
+        .prop_map(|(cfg, tree, churn, mut ops)| {
+            if let Some((edits, c1, c2, c3)) = churn {
+                let pre = vec![
+                    Step { cached: c1, op: COp::Backup { edits, parent: false } },
+                    Step { cached: c2, op: COp::Forget { sel: vec![0] } },
+                    Step { cached: c3, op: COp::Prune(PruneCfg::aggressive()) },
+                ];
+                ops.splice(0..0, pre);
+            }
+            Case { cfg, tree, ops }
+        })
         .boxed()
 }
 
@@ -278,7 +314,9 @@ fn plan(c: &Case) -> (Vec<Resolved>, bool) {
     for s in &c.ops {
         let mut r = Resolved::default();
         let cached = s.cached;
-        if cached && lists_snapshots(&s.op) {
+        // (a dump without a live snapshot does nothing)
+        let does_nothing = matches!(s.op, COp::Dump { .. }) && live.is_empty();
+        if cached && lists_snapshots(&s.op) && !does_nothing {
             dirty.clear();
             in_cache.retain(|o| live.contains(o));
         }
@@ -997,14 +1035,40 @@ fn touches(op: &COp, r: &Resolved, tpe: PType, plant: &Plant, plant_ords: &[usiz
 }
 
 pub fn run(c: &Case, ctx: &Ctx) -> Outcome {
+    let mut note = String::new();
+    let mut o = run_inner(c, ctx, &mut note);
+    if let Some(f) = &mut o.failure {
+        f.push_str(&note);
+    }
+    o
+}
+
+fn run_inner(c: &Case, ctx: &Ctx, key_note: &mut String) -> Outcome {
     let (resolved, known) = plan(c);
     let mut out = Outcome::pass();
+    let mut keys: Vec<&'static str> = Vec::new();
     if known {
-        out = out.known(KEY_FULL_ID);
-        // development knob: behave as if the key were listed as known in known_findings.json
-        if !ctx.strict && std::env::var_os("VP_C19_ASSUME_KNOWN").is_some() {
-            return out.skip("matches the full-id predicate (VP_C19_ASSUME_KNOWN)");
+        keys.push(KEY_FULL_ID);
+    }
+    if c.ops.iter().any(|s| matches!(s.op, COp::Plant(Plant::Foreign { kind: Foreign::HexMisplaced { .. }, .. }))) {
+        keys.push(KEY_MISPLACED);
+    }
+    if c.ops.iter().any(|s| {
+        matches!(s.op, COp::Plant(Plant::WrongSize { tpe: PType::Pack, change: SizeChange::Garbage(_), .. }))
+    }) {
+        keys.push(KEY_GARBAGE_PACK);
+    }
+    // report the first key that is listed as known, else the first matching one
+    if let Some(k) = keys.iter().copied().find(|k| ctx.is_known(k)).or_else(|| keys.first().copied()) {
+        out = out.known(k);
+    }
+    if !ctx.strict {
+        if let Some(k) = keys.iter().find(|k| assumed_known(k)) {
+            return out.skip(format!("assumed-known:{k}"));
         }
+    }
+    if !keys.is_empty() {
+        *key_note = format!(" [case matches the input-side predicate(s): {}]", keys.join(", "));
     }
     for s in &c.ops {
         let how = if matches!(s.op, COp::Plant(_)) { "" } else if s.cached { "_cached" } else { "_uncached" };
